@@ -20,7 +20,12 @@ for (did, commit), v in seen.items():
     out.append(f"| {did} | {','.join(v['props'])} | {commit} | {v['what'].replace('|','/')} |")
 out.append("\n## 2. Seeded changes and which check catches them\n")
 res = json.load(open(f"{root}/seeded/RESULTS.json")) if os.path.exists(f"{root}/seeded/RESULTS.json") else {}
-out.append("| seeded id | property | what the change does / what it needs | caught by | how |\n|---|---|---|---|---|")
+st = json.load(open(f"{root}/seeded/STATUS.json")) if os.path.exists(f"{root}/seeded/STATUS.json") else {"seeds": {}, "repo_head": "?"}
+out.append(f"Series m, n = rounds 1-2, p = round 3, q = round 4 (each produced by a fresh sub-agent given only the property text). "
+           f"Column 'breaks at HEAD' (tools/seeded_status.py, /repo {st['repo_head']}): does the change's own demonstration still fail with the "
+           "change and pass without it? A later `fix:` commit can neutralise a seeded change (e.g. the repaired C10 check blocks the escapes "
+           "C10-m1/p2/q2 opened); such a change is then a harmless rewrite that the check still reports as a broken correspondence.\n")
+out.append("| seeded id | property | what the change does / what it needs | breaks at HEAD | caught by | how |\n|---|---|---|---|---|---|")
 for d in sorted(glob.glob(f"{root}/seeded/*/meta.json")):
     sid = os.path.basename(os.path.dirname(d))
     m = json.load(open(d))
@@ -31,7 +36,9 @@ for d in sorted(glob.glob(f"{root}/seeded/*/meta.json")):
     else:
         by, how = "(not run yet)", ""
     desc = (str(m.get("summary", ""))[:260] + " — needs: " + str(m.get("needs", ""))[:200]).replace("|", "/").replace("\n", " ")
-    out.append(f"| {sid} | {m['property']} | {desc} | {by} | {how} |")
+    bh = st["seeds"].get(sid, {})
+    bhs = "yes" if bh.get("breaks_at_head") else ("no (neutralised)" if bh.get("applies") else "patch needs rebase")
+    out.append(f"| {sid} | {m['property']} | {desc} | {bhs} | {by} | {how} |")
 out.append("\n## 3. Proof obligations per property (from the last evidence files)\n")
 out.append("| property | theorems audited | cases (last run) | distinct non-trivial | tier | wall s |\n|---|---|---|---|---|---|")
 for f in sorted(glob.glob(f"{root}/evidence/C*.json")):
